@@ -222,21 +222,34 @@ struct RequestBody {
     finished: bool,
 }
 
+/// What stopped the body of the request on its way to the origin
+enum ForwardError {
+    /// The client's side of the request failed
+    Client(io::Error),
+    /// The origin does not take the body
+    Origin(io::Error),
+}
+
 impl RequestBody {
     /// Move the next chunk of the body to `sink`.
     /// Nothing is lost if the returned future is dropped before it completes.
-    async fn forward(&mut self, sink: &mut dyn pipe::Sink) -> io::Result<()> {
-        match pipe::Source::read(self).await? {
+    async fn forward(&mut self, sink: &mut dyn pipe::Sink) -> Result<(), ForwardError> {
+        match pipe::Source::read(self)
+            .await
+            .map_err(ForwardError::Client)?
+        {
             pipe::Data::Chunk(chunk) => self.unsent = Some(chunk),
             // the end of the request is passed on by the pipe
             pipe::Data::Eof => return Ok(()),
         }
 
-        sink.wait_writable().await?;
+        sink.wait_writable().await.map_err(ForwardError::Origin)?;
         if let Some(chunk) = self.unsent.take() {
             let chunk_len = chunk.len();
-            let unsent = sink.write(chunk)?;
-            self.source.consume(chunk_len - unsent.len())?;
+            let unsent = sink.write(chunk).map_err(ForwardError::Origin)?;
+            self.source
+                .consume(chunk_len - unsent.len())
+                .map_err(ForwardError::Client)?;
             if !unsent.is_empty() {
                 self.unsent = Some(unsent);
             }
@@ -279,21 +292,35 @@ async fn read_response_head(
     request_body: &mut RequestBody,
 ) -> io::Result<(http_codec::ResponseHeaders, Bytes)> {
     let mut buffer = BytesMut::new();
+    // The origin may refuse the request and close without having read the body. The write that
+    // fails then must not hide the response it has sent: the error is kept until the origin's
+    // side has been read out.
+    let mut forward_error: Option<io::Error> = None;
     loop {
         let data = tokio::select! {
-            x = server_source.read() => x?,
-            x = request_body.forward(server_sink), if !request_body.finished => {
-                x?;
+            biased;
+            x = server_source.read() => x,
+            x = request_body.forward(server_sink),
+                if !request_body.finished && forward_error.is_none() =>
+            {
+                match x {
+                    Ok(()) => (),
+                    Err(ForwardError::Client(e)) => return Err(e),
+                    Err(ForwardError::Origin(e)) => forward_error = Some(e),
+                }
                 continue;
             }
         };
 
         match data {
-            pipe::Data::Chunk(chunk) => {
+            Ok(pipe::Data::Chunk(chunk)) => {
                 server_source.consume(chunk.len())?;
                 buffer.put(chunk);
             }
-            pipe::Data::Eof => return Err(ErrorKind::UnexpectedEof.into()),
+            Ok(pipe::Data::Eof) => {
+                return Err(forward_error.unwrap_or_else(|| ErrorKind::UnexpectedEof.into()))
+            }
+            Err(e) => return Err(forward_error.unwrap_or(e)),
         }
 
         match http1_codec::decode_response(
